@@ -44,18 +44,26 @@ def delta_encode(values, block=128, minis=4):
     return bytes(out)
 
 
-def build(path, values, bits=64, version=2, delta=True):
+def _snappy(b):
+    from fastparquet.compression import compress_data
+    return bytes(compress_data(b, "SNAPPY"))
+
+
+def build(path, values, bits=64, version=2, delta=True, compress=False):
     from fastparquet import parquet_thrift as pt
     ptype = 2 if bits == 64 else 1
     body = delta_encode(values) if delta else b"".join(struct.pack("<q" if bits == 64 else "<i", v) for v in values)
     enc = 5 if delta else 0
     data = bytearray(b"PAR1")
     start = len(data)
+    ulen = len(body)
     if version == 2:
+        if compress:
+            body = _snappy(body)
         dph = pt.DataPageHeaderV2(num_values=len(values), num_nulls=0, num_rows=len(values), encoding=enc,
                                   definition_levels_byte_length=0, repetition_levels_byte_length=0,
-                                  is_compressed=False, i32=1)
-        ph = pt.PageHeader(type=3, uncompressed_page_size=len(body), compressed_page_size=len(body),
+                                  is_compressed=bool(compress), i32=1)
+        ph = pt.PageHeader(type=3, uncompressed_page_size=ulen, compressed_page_size=len(body),
                            data_page_header_v2=dph, i32=1)
     else:
         dph = pt.DataPageHeader(num_values=len(values), encoding=enc, definition_level_encoding=3,
@@ -64,9 +72,9 @@ def build(path, values, bits=64, version=2, delta=True):
                            data_page_header=dph, i32=1)
     data += bytes(ph.to_bytes()) + body
     size = len(data) - start
-    md = pt.ColumnMetaData(type=ptype, encodings=[enc], path_in_schema=["x"], codec=0, num_values=len(values),
-                           total_uncompressed_size=size, total_compressed_size=size, data_page_offset=start,
-                           i32list=[1, 4])
+    md = pt.ColumnMetaData(type=ptype, encodings=[enc], path_in_schema=["x"], codec=1 if compress else 0,
+                           num_values=len(values), total_uncompressed_size=size, total_compressed_size=size,
+                           data_page_offset=start, i32list=[1, 4])
     rg = pt.RowGroup(columns=[pt.ColumnChunk(file_offset=start, meta_data=md)], total_byte_size=size,
                      num_rows=len(values))
     schema = [pt.SchemaElement(name="schema", num_children=1),
@@ -109,7 +117,7 @@ def _hybrid_bitpacked(vals, width):
 
 
 def build_dict(path, dictionary, indices, width, nulls=None, optional=False, pages=1, stats_null_count="absent",
-               version=1, page_rows=None):
+               version=1, page_rows=None, compress=False, split_runs=False):
     """flat INT64 column, data page v1 (or v2), RLE_DICTIONARY: a PLAIN dictionary page followed by `pages` data pages
     (or one page per entry of page_rows) whose indices are one bit-packed run of the given width; nulls (list of bool
     per row) only when optional"""
@@ -119,7 +127,11 @@ def build_dict(path, dictionary, indices, width, nulls=None, optional=False, pag
     data = bytearray(b"PAR1")
     start = len(data)
     dbody = b"".join(struct.pack("<q", v) for v in dictionary)
-    dph = pt.PageHeader(type=2, uncompressed_page_size=len(dbody), compressed_page_size=len(dbody),
+    dulen = len(dbody)
+    if compress:
+        assert version == 2
+        dbody = _snappy(dbody)
+    dph = pt.PageHeader(type=2, uncompressed_page_size=dulen, compressed_page_size=len(dbody),
                         dictionary_page_header=pt.DictionaryPageHeader(num_values=len(dictionary), encoding=0, i32=1),
                         i32=1)
     data += bytes(dph.to_bytes()) + dbody
@@ -140,12 +152,18 @@ def build_dict(path, dictionary, indices, width, nulls=None, optional=False, pag
         if optional:
             lv = _hybrid_bitpacked([0 if x else 1 for x in rows], 1)
             body += (struct.pack("<I", len(lv)) if version == 1 else b"") + lv
-        body += bytes([width]) + (_hybrid_bitpacked(idx, width) if width else b"")
+        if split_runs and width:
+            # the same indices as several bit-packed runs of one group (8 values) each
+            vbytes = bytes([width]) + b"".join(_hybrid_bitpacked(idx[g:g + 8], width) for g in range(0, len(idx), 8))
+        else:
+            vbytes = bytes([width]) + (_hybrid_bitpacked(idx, width) if width else b"")
+        ulen = len(body) + len(vbytes)
+        body += _snappy(vbytes) if compress else vbytes
         if version == 2:
             h2 = pt.DataPageHeaderV2(num_values=len(rows), num_nulls=sum(1 for x in rows if x), num_rows=len(rows),
                                      encoding=8, definition_levels_byte_length=len(lv),
-                                     repetition_levels_byte_length=0, is_compressed=False, i32=1)
-            ph = pt.PageHeader(type=3, uncompressed_page_size=len(body), compressed_page_size=len(body),
+                                     repetition_levels_byte_length=0, is_compressed=bool(compress), i32=1)
+            ph = pt.PageHeader(type=3, uncompressed_page_size=ulen, compressed_page_size=len(body),
                                data_page_header_v2=h2, i32=1)
         else:
             ph = pt.PageHeader(type=0, uncompressed_page_size=len(body), compressed_page_size=len(body),
@@ -159,7 +177,7 @@ def build_dict(path, dictionary, indices, width, nulls=None, optional=False, pag
         # chunk statistics as another writer may store them (null_count is optional in the format)
         extra["statistics"] = pt.Statistics(null_count=stats_null_count, max=struct.pack("<q", max(dictionary)),
                                             min=struct.pack("<q", min(dictionary)))
-    md = pt.ColumnMetaData(type=2, encodings=[0, 3, 8], path_in_schema=["x"], codec=0, num_values=n,
+    md = pt.ColumnMetaData(type=2, encodings=[0, 3, 8], path_in_schema=["x"], codec=1 if compress else 0, num_values=n,
                            total_uncompressed_size=size, total_compressed_size=size, data_page_offset=data_start,
                            dictionary_page_offset=start, i32list=[1, 4], **extra)
     rg = pt.RowGroup(columns=[pt.ColumnChunk(file_offset=start, meta_data=md)], total_byte_size=size, num_rows=n)
